@@ -35,6 +35,12 @@ def gen_specs(rng: random.Random, tier: str, n: int) -> list[dict]:
     specs = []
     for i in range(n):
         cfg = _ds.rand_cfgspec(rng, max_n=8 if tier == "thorough" else 7, max_mazes=16 if tier == "thorough" else 10, filters=False, rich_endpoints=True, big_mazes=0.05)
+        narrow = i % 40 == 13
+        if narrow:
+            # endpoint sets given as int8 coordinate arrays on a grid wide enough for flat cell indices to exceed 255
+            g = rng.choice([17, 18, 20])
+            cells = [[rng.randrange(g), rng.randrange(g)] for _ in range(rng.randint(2, 6))] + [[g - 1, g - 1 - rng.randrange(3)], [g - 2, rng.randrange(g)]]
+            cfg = {"name": "narrow", "grid_n": g, "n_mazes": rng.randint(1, 3), "maze_ctor": rng.choice(["gen_dfs", "gen_dfs_percolation"]), "maze_ctor_kwargs": {}, "endpoint_kwargs": {rng.choice(["allowed_start", "allowed_end"]): cells}, "seed": rng.randrange(10**6), "applied_filters": [], "endpoint_repr": "int8-arrays"}
         hist = []
         for _ in range(rng.choice([0, 0, 1, 1, 2])):
             hist.append(
@@ -57,7 +63,7 @@ def gen_specs(rng: random.Random, tier: str, n: int) -> list[dict]:
                 "cfg": cfg,
                 "history": hist,
                 "parallel": parallel,
-                "via": rng.choice(["generate", "generate", "from_config"]),
+                "via": "generate" if narrow else rng.choice(["generate", "generate", "from_config"]),  # from_config needs JSON-native kwargs (file name)
                 "pool_kwargs": pk,
                 "world": {
                     "start_method": rng.choice(["fork", "fork", "spawn"]),
